@@ -33,6 +33,26 @@ impl std::hash::Hash for FV {
     }
 }
 
+/// identity field of tracked structs: hashes only its low bit while `COARSE_IDENT_HASH` is set, so
+/// that different identity values collide on (hash, disambiguator) and salsa has to distinguish
+/// them by equality (generation bump in place) — same idea as upstream's `BadHash` tests.
+pub static COARSE_IDENT_HASH: std::sync::atomic::AtomicBool = std::sync::atomic::AtomicBool::new(false);
+#[derive(Clone, Copy, Debug)]
+pub struct IV(pub u32);
+impl PartialEq for IV {
+    fn eq(&self, o: &IV) -> bool {
+        fault::tick(Site::FieldEq);
+        self.0 == o.0
+    }
+}
+impl Eq for IV {}
+impl std::hash::Hash for IV {
+    fn hash<H: std::hash::Hasher>(&self, s: &mut H) {
+        fault::tick(Site::FieldHash);
+        if COARSE_IDENT_HASH.load(Ordering::Relaxed) { s.write_u32(self.0 & 1) } else { s.write_u32(self.0) }
+    }
+}
+
 /// interned field value with a constant hash, so every value of a type lands in the same shard
 /// (slot reuse is only possible within a shard) — same trick as upstream's `BadHash`.
 #[derive(Clone, Copy, Debug)]
@@ -89,7 +109,7 @@ pub struct NodeKey {
 #[salsa::tracked(debug)]
 pub struct Ent<'db> {
     #[returns(copy)]
-    pub ident: FV,
+    pub ident: IV,
     #[tracked]
     #[returns(copy)]
     pub tv: FV,
@@ -592,7 +612,7 @@ fn run_ops<'db>(db: &'db dyn Vd, ctx: &Ctx, f: &mut Frame<'db>, ops: &[Op]) {
             }
             Op::NewEnt { ident } => {
                 let id_v = src_val(*ident, f.acc) % VMOD;
-                let e = Ent::new(db, FV(id_v), FV(f.acc), FV(f.acc));
+                let e = Ent::new(db, IV(id_v), FV(f.acc), FV(f.acc));
                 let occ = f.occ.entry(id_v).or_insert(0);
                 let made = Created { ident: id_v, occ: *occ, id: e.as_id().as_bits(), tv: f.acc, tn: f.acc, after_read: f.any_read };
                 ctx.push(Rec::Made(f.rec.key, made.clone()));
@@ -790,6 +810,7 @@ pub fn new_ctx(prog: Arc<Program>, cells: Vec<u32>) -> Arc<Ctx> {
 impl World {
     /// `vals[slot][field] = (value, durability)`
     pub fn new(prog: Arc<Program>, vals: &[[(u32, D); 2]], cells: Vec<u32>) -> World {
+        COARSE_IDENT_HASH.store(prog.coarse_hash, Ordering::SeqCst);
         let ctx = new_ctx(prog.clone(), cells);
         let c2 = ctx.clone();
         let storage = salsa::Storage::new(Some(Box::new(move |ev| c2.on_event(ev))));
